@@ -654,6 +654,7 @@ def gen_args(cls, m, state, rng):
         return [r], [frac(r)]
     if m == "mark":
         s = {"final_damage_multiplier": float(rng.randint(0, 30)), "attack_power": float(rng.randint(0, 9))}
+        s = {k: v for k, v in s.items() if v != 0}
         return [s], ["S:" + canon(s)]
     return [], []
 
@@ -728,6 +729,31 @@ def normalise_divine(j):
     return j
 
 
+def work(cls, m, state, args) -> float:
+    """a bound on the number of loop iterations of the real method (tiny intervals with long times are
+    skipped: the real loops copy the entity at every step)"""
+    try:
+        if cls == "Periodic" and m == "elapse":
+            return args[0] / min(state["interval"], state["interval_counter"])
+        if cls == "CurrentField" and m == "elapse":
+            return sum(args[0] / min(p["interval"], p["interval_counter"]) for p in state["field_periodics"])
+        if cls == "Keydown" and m == "resolving":
+            return max(state["time_left"], 0) / state["interval"]
+        if cls == "Consumable" and m == "elapse":
+            return max(args[0] - state["time_left"], 0) / state["cooldown_duration"]
+        if cls == "DOT" and m == "elapse":
+            return args[0] / state["period"]
+        if cls == "ProgrammedPeriodic" and m == "resolving":
+            return max(state["time_left"], 0) / min(state["intervals"])
+        if cls == "DynamicIntervalPeriodic" and m == "resolving":
+            return (args[0] + max(-state["interval_counter"], 0)) / state["interval"]
+        if cls == "OrderSword" and m == "resolving":
+            return sum(abs(t / state["interval"]) for _, t in state["running_swords"])
+    except ZeroDivisionError:
+        return float("inf")
+    return 0.0
+
+
 def make_cases(rng, per_method):
     klasses = entity_classes()
     cases = []
@@ -735,7 +761,7 @@ def make_cases(rng, per_method):
         for m in methods:
             made = 0
             tries = 0
-            while made < per_method and tries < per_method * 4:
+            while made < per_method and tries < per_method * 6:
                 tries += 1
                 state = gen_state(cls, rng)
                 if cls == "DivineMark" and state["advantage"] is not None:
@@ -745,6 +771,8 @@ def make_cases(rng, per_method):
                 args, dargs = gen_args(cls, m, state, rng)
                 # stay inside the documented domain of the model (states on which the Python loop terminates)
                 if cls == "OrderSword" and m == "resolving" and state["interval"] < 0 and rng.random() < 0.5:
+                    continue
+                if work(cls, m, state, args) > 3000:
                     continue
                 try:
                     req_state = enc_state(cls, state)
@@ -771,7 +799,7 @@ def main(ck: Check):
 
     # ---- (b) the property on the real code, in the pool, while the Lean side runs afterwards
     variants = [0, 1] if quick else [0, 1, 2]
-    plans_per = 2 if quick else 8
+    plans_per = 4 if quick else 8
     work = [(job, v, pi, ck.seed, ck.tier) for job in JOBS for v in variants for pi in range(plans_per)]
     evaluations = states = nontrivial = multi = 0
     by_class: dict = {}
